@@ -7,6 +7,8 @@ import ConfModel.Lemmas.ServerTimeout
 import ConfModel.Lemmas.ServerChecks
 import ConfModel.Generated.C12Facts
 import ConfModel.Lemmas.FeedbackLine
+import ConfModel.Lemmas.FeedbackStream
+import ConfModel.Lemmas.ServerOverlap
 namespace ConfModel.Props.C12
 open ConfModel.ServerTimeout ConfModel.ServerChecksSpec
 
@@ -621,6 +623,164 @@ theorem feedback_line_witness :
       (prefixLine "S/110%-of-timeout".toList "expected compression gzip; instead got identity".toList) = true ∧
     attributedTo ["S/110%-of-timeout".toList, "S/other".toList] "S/110%-of-timeout".toList
       "S/110%!-(string=gzip)of-timeout: expected compression identity; instead got %!s(MISSING)\n".toList = false := by
+  decide
+
+/-! ## Overlapping requests on one reference server
+
+One handler closure serves all requests of a server; a stream can sit inside the wrapped handler
+for as long as its client likes while other test cases come and go.  `ServerOverlap.run` lets
+any number of requests arrive and move one feedback line at a time in any order (a *schedule*;
+every interleaving is one).  The feedback of a request must carry that request's test name and
+be what the checks say about that request - whatever the others do in between. -/
+
+open ConfModel.ServerOverlap in
+/-- **overlap_feedback_named.**  In every interleaving, every line is printed under the test
+name of the request that printed it. -/
+theorem overlap_feedback_named (reqs : List Req) (sched : List Ev) :
+    ∀ l ∈ (run reqs {} sched).2, ∃ r, reqs[l.id]? = some r ∧ l.name = testName r :=
+  run_ok reqs {} sched (by intro f hf; simp at hf)
+
+open ConfModel.ServerOverlap in
+/-- **overlap_feedback_exact.**  Request `i` arrives after the events `a`; afterwards the
+schedule `b` lets it take `stepsOf i b` actions, interleaved in any way with anything the other
+requests do.  What it has printed is exactly the corresponding part of its own program - the
+feedback of `checks` for this request, with the repeat counter as it stood at its arrival - every
+line under its own test name, nothing from or to another request. -/
+theorem overlap_feedback_exact (reqs : List Req) (a b : List Ev) (i : Nat) (r : Req)
+    (hr : reqs[i]? = some r) (hn : testName r ≠ "") (ha : Ev.arrive i ∉ a) :
+    linesOf i (run reqs {} (a ++ .arrive i :: b)).2 =
+      (prints ((program (countOf (run reqs {} a).1.calls (testName r)) r).take (stepsOf i b))).map
+        (fun fb => { id := i, name := testName r, fb := fb }) := by
+  obtain ⟨h1, h2, _⟩ := run_noframe reqs i a {} (by simp) ha
+  rw [run_append]
+  simp only [linesOf, List.filter_append] at h1 ⊢
+  rw [h1, List.nil_append]
+  have hno : hasFrame (run reqs {} a).1 i = false := by rw [hasFrame_iff, h2]; rfl
+  have hne : (testName r == "") = false := by simpa using hn
+  simp only [run, stepSrv, hr, hno, hne, Bool.false_eq_true, if_false, List.nil_append]
+  refine (run_frame reqs i b _ { id := i, name := testName r, todo := program (countOf (run reqs {} a).1.calls (testName r)) r } ?_).1
+  simp
+
+open ConfModel.ServerOverlap in
+/-- **overlap_feedback_complete.**  A request that arrives once and is scheduled often enough to
+run to its end has printed exactly the feedback `checks` computes for it - flagged as a repetition
+iff a request of the same test case arrived before it - under its own test name, however many
+other requests overlapped with it. -/
+theorem overlap_feedback_complete (reqs : List Req) (a b : List Ev) (i : Nat) (r : Req)
+    (hr : reqs[i]? = some r) (hn : testName r ≠ "") (ha : Ev.arrive i ∉ a) (hon : arrivesOnce a = true)
+    (hk : (program (countOf (arrivalNames reqs a) (testName r)) r).length ≤ stepsOf i b) :
+    linesOf i (run reqs {} (a ++ .arrive i :: b)).2 =
+      (checks (countOf (arrivalNames reqs a) (testName r)) r).feedback.map
+        (fun fb => { id := i, name := testName r, fb := fb }) := by
+  have hc : (run reqs {} a).1.calls = (arrivalNames reqs a).reverse := by
+    have := run_calls reqs a {} (by intro f hf; simp at hf) hon
+    simpa using this
+  rw [overlap_feedback_exact reqs a b i r hr hn ha, hc, countOf_reverse, List.take_of_length_le hk,
+    prints_program, checks_feedback_split _ _ hn]
+
+private def exStream : Req :=
+  { render exA "S/stream" exA exV with trailers := 1 }
+private def exUnary : Req := render exA "S/unary" exA exV
+
+open ConfModel.ServerOverlap in
+/-- Non-vacuity of the hypotheses of `overlap_feedback_exact` / `overlap_feedback_complete`: the
+stream arrives while a unary call of another test case is in flight, and is scheduled to its end
+interleaved with it. -/
+example : [exUnary, exStream][1]? = some exStream ∧ testName exStream ≠ "" ∧
+    Ev.arrive 1 ∉ [Ev.arrive 0] ∧ arrivesOnce [Ev.arrive 0] = true ∧
+    (program (countOf (arrivalNames [exUnary, exStream] [.arrive 0]) (testName exStream)) exStream).length
+      ≤ stepsOf 1 [.step 1, .step 0, .step 1] ∧
+    linesOf 1 (run [exUnary, exStream] {} ([.arrive 0] ++ .arrive 1 :: [.step 1, .step 0, .step 1])).2
+      = [{ id := 1, name := "S/stream", fb := .trailers }] := by decide
+
+open ConfModel.ServerOverlap in
+/-- Non-vacuity, and what goes wrong with one printer for all calls: a stream with a request
+trailer is inside the handler while a conformant unary call of another test case passes through.
+Each request's feedback is its own (`run`): the trailer is reported for `S/stream`, nothing for
+`S/unary`.  With a shared printer whose name is overwritten on arrival (`runShared`) the same
+schedule reports the trailer under `S/unary`: a conformant test case is flagged and the deviating
+one is not. -/
+theorem overlap_shared_printer_witness :
+    testName exStream ≠ "" ∧ arrivesOnce [.arrive 0, .step 0] = true ∧
+    (run [exStream, exUnary] {} [.arrive 0, .step 0, .arrive 1, .step 1, .step 0, .step 0]).2
+      = [{ id := 0, name := "S/stream", fb := .trailers }] ∧
+    linesOf 1 (run [exStream, exUnary] {} [.arrive 0, .step 0, .arrive 1, .step 1, .step 0, .step 0]).2 = [] ∧
+    runShared [exStream, exUnary] {} [.arrive 0, .step 0, .arrive 1, .step 1, .step 0, .step 0]
+      = [{ id := 0, name := "S/unary", fb := .trailers }] ∧
+    runShared [exStream, exUnary] {} [.arrive 0, .step 0, .step 0, .arrive 1, .step 1]
+      = [{ id := 0, name := "S/stream", fb := .trailers }] := by decide
+
+/-! ## The whole stderr stream: any number of lines, of any length, in reads of any size
+
+`feedback_line_attributed` is about one line.  The runner reads the stream of a server that
+serves a whole batch; messages echo values the client chooses (content type, encodings, header
+values) and are as long as the client makes them.  No line may cost the lines behind it. -/
+
+open ConfModel.FeedbackLine ConfModel.FeedbackStream ConfModel.ServerRunner in
+/-- **reader_chunking_irrelevant.**  The lines the reader hands out are those of the stream,
+however the stream is cut into reads - and there is no bound on the length of a line. -/
+theorem reader_chunking_irrelevant (chunks : List (List Char)) :
+    readChunks chunks [] = splitLines chunks.flatten [] := readChunks_eq chunks []
+
+open ConfModel.FeedbackLine ConfModel.FeedbackStream ConfModel.ServerRunner in
+/-- **feedback_stream_attributed.**  Any sequence of feedback messages printed for test cases of
+the batch - any number, each of any length - is recorded by the runner message by message, each
+for its own test case, in order, and nothing is forwarded as noise. -/
+theorem feedback_stream_attributed (names : List (List Char)) (msgs : List (List Char × List Char))
+    (h : ∀ m ∈ msgs, wellFormed names m = true) :
+    readStream names (printed msgs) = ([], msgs) := by
+  induction msgs with
+  | nil => simp [printed, readStream, splitLines, processLines]
+  | cons m ms ih =>
+    have hm := (wellFormed_iff names m).mp (h m List.mem_cons_self)
+    obtain ⟨hmem, hsep, hst, hnl, hte, htl⟩ := hm
+    obtain ⟨w, hw, hone, hact⟩ := prefixLine_shape m.1 m.2 hnl hte htl
+    have ih' := ih (fun x hx => h x (List.mem_cons_of_mem _ hx))
+    unfold readStream at ih' ⊢
+    simp only [printed, hw]
+    rw [splitLines_append, feed_oneLine w [] hone]
+    simp only [List.reverse_nil, List.nil_append, List.singleton_append, processLines, hact names hmem hsep hst, ih']
+
+open ConfModel.FeedbackLine ConfModel.FeedbackStream ConfModel.ServerRunner in
+/-- **feedback_stream_chunked.**  The same when the stream reaches the runner in reads of any
+sizes. -/
+theorem feedback_stream_chunked (names : List (List Char)) (msgs : List (List Char × List Char))
+    (chunks : List (List Char)) (hc : chunks.flatten = printed msgs)
+    (h : ∀ m ∈ msgs, wellFormed names m = true) :
+    readStreamChunked names chunks = ([], msgs) := by
+  unfold readStreamChunked
+  rw [reader_chunking_irrelevant, hc]
+  exact feedback_stream_attributed names msgs h
+
+open ConfModel.FeedbackLine ConfModel.FeedbackStream ConfModel.ServerRunner in
+/-- **feedback_stream_flags_each.**  After the stream has been read, the runner holds feedback
+for every test case that got any, and it is the last message printed for that test case -
+whatever was printed before, between and after for other test cases. -/
+theorem feedback_stream_flags_each (names : List (List Char)) (before after : List (List Char × List Char))
+    (nm text : List Char) (chunks : List (List Char))
+    (hc : chunks.flatten = printed (before ++ (nm, text) :: after))
+    (h : ∀ m ∈ before ++ (nm, text) :: after, wellFormed names m = true)
+    (hlast : ∀ m ∈ after, m.1 ≠ nm) :
+    sideband (readStreamChunked names chunks).2 nm = some text := by
+  rw [feedback_stream_chunked names _ chunks hc h]
+  exact sideband_append_last before after nm text hlast
+
+open ConfModel.FeedbackLine ConfModel.FeedbackStream ConfModel.ServerRunner in
+/-- Non-vacuity (a stream of three messages delivered in odd pieces), and what a line reader with
+a bounded line length does to it: the reader of the runner records all three; one that cannot
+hold more than 16 characters of a line loses the long line *and every line behind it*, although
+it reads any stream of short lines exactly like the unbounded one. -/
+theorem feedback_stream_witness :
+    let names := ["A".toList, "B".toList]
+    let msgs := [("A".toList, "expected codec proto; instead got xxxxxxxxxxxxxxxxxxxxxxxx".toList),
+                 ("B".toList, "x".toList), ("A".toList, "y".toList)]
+    (∀ m ∈ msgs, wellFormed names m = true) ∧
+    [(printed msgs).take 5, ((printed msgs).drop 5).take 60, (printed msgs).drop 65].flatten = printed msgs ∧
+    (∀ m ∈ msgs.drop 2, m.1 ≠ "B".toList) ∧
+    readStreamChunked names [(printed msgs).take 5, ((printed msgs).drop 5).take 60, (printed msgs).drop 65] = ([], msgs) ∧
+    sideband msgs "A".toList = some "y".toList ∧ sideband msgs "B".toList = some "x".toList ∧
+    processLines names (limitedLines 16 (printed msgs)) = ([], []) ∧
+    processLines names (limitedLines 16 (printed (msgs.drop 1))) = ([], msgs.drop 1) := by
   decide
 
 end ConfModel.Props.C12
